@@ -78,7 +78,19 @@ class LineMachine:
         # the constant part of the parser object: compiled regexes and settings, as the constructor sets them
         self.consts = {}
         self.init_only = set()      # set by the constructor in a form that is not evaluated here
-        for n in ast.walk(init.node):
+        # (the constructor may delegate to helper methods of the parser family: self.<helper>() calls are followed)
+        methods = m.parser_methods()
+        bodies, todo, seen_h = [], [init], {"__init__"}
+        while todo:
+            f_ = todo.pop()
+            bodies.append(f_)
+            for n in ast.walk(f_.node):
+                if isinstance(n, ast.Call) and isinstance(n.func, ast.Attribute) and isinstance(n.func.value, ast.Name) and n.func.value.id == "self" \
+                        and n.func.attr in methods and n.func.attr not in seen_h and not n.func.attr.startswith(("p_", "t_")):
+                    seen_h.add(n.func.attr)
+                    todo.append(methods[n.func.attr])
+        self.init_funcs = bodies
+        for f_, n in [(f_, n) for f_ in bodies for n in ast.walk(f_.node)]:
             if isinstance(n, ast.Assign) and len(n.targets) == 1 and isinstance(n.targets[0], ast.Attribute) \
                     and isinstance(n.targets[0].value, ast.Name) and n.targets[0].value.id == "self":
                 v = n.value
@@ -101,7 +113,7 @@ class LineMachine:
                             if any(isinstance(x, ast.Name) and x.id in ("content", "debug", "silent", "normalize_names", "log_file", "log_level", "self")
                                    for x in ast.walk(v)):
                                 raise LexUnknown("depends on a constructor argument")
-                            self.consts[name] = Interp(m, ctx.grammar.tokens_ns, Obj()).ev(v, {"__module__": init.module})
+                            self.consts[name] = Interp(m, ctx.grammar.tokens_ns, Obj()).ev(v, {"__module__": f_.module})
                         except Exception:
                             self.init_only.add(name)
         self.consts.setdefault("silent", True)
